@@ -18,8 +18,9 @@ Qed.
 Section Facts.
   Variable ci cs mi ms : bool.
   Variable j1 j2 : Z.
+  Variable asafe : bool.
 
-  Notation step := (cstep ci cs mi ms j1 j2).
+  Notation step := (cstep ci cs mi ms j1 j2 asafe).
 
   Lemma getobj_putobj_other st o o' x : o' <> o -> getobj (putobj st o x) o' = getobj st o'.
   Proof.
@@ -36,6 +37,10 @@ Section Facts.
   Qed.
 
   Lemma getobj_clog st e o : getobj (clog st e) o = getobj st o.
+  Proof. reflexivity. Qed.
+  Lemma getobj_setnext st n o : getobj (setnext st n) o = getobj st o.
+  Proof. reflexivity. Qed.
+  Lemma getobj_mkC st t n r o : getobj (mkC (objs st) t n r) o = getobj st o.
   Proof. reflexivity. Qed.
 
   Lemma getobj_fold_clog {A} (f : A -> cev) (l : list A) st o :
@@ -63,44 +68,108 @@ Section Facts.
   Definition targets (c : ccmd) : list nat :=
     match c with
     | CAppend o _ _ | CAddFilter o _ _ | CEnqueue o _ _ | CProcess o | CDestroy o | CGuardBegin o _ | CGuardEnd o _ => [o]
-    | CDispatch _ _ _ | CEmptyQ _ | CCanProcess _ => []
+    | CRemove o _ _ => [o]
+    | CDispatch _ _ _ | CEmptyQ _ | CCanProcess _ | COwns _ _ _ => []
     | CNew d | CCopyCtor _ d | CCopyAssign _ d => [d]
     | CMoveCtor s d | CMoveAssign s d => [s; d]
     | CSwap a b => [a; b]
     end.
+
+  Lemma objs_fold_clog {A} (f : A -> cev) (l : list A) st : objs (fold_left (fun s c => clog s (f c)) l st) = objs st.
+  Proof. revert st; induction l as [|x t IH]; intros st; simpl; [reflexivity|]. rewrite IH. reflexivity. Qed.
+  Lemma objs_run_filters st o fs a : objs (fst (run_filters st o fs a)) = objs st.
+  Proof.
+    revert st; induction fs as [|[c v] t IH]; intros st; simpl; [reflexivity|].
+    destruct v; [rewrite IH|]; reflexivity.
+  Qed.
+  Lemma objs_do_dispatch st o x k a : objs (do_dispatch st o x k a) = objs st.
+  Proof.
+    unfold do_dispatch. destruct (run_filters st o (ofilters x) a) as [st1 pass] eqn:E.
+    assert (H : objs st1 = objs st) by (rewrite <- (objs_run_filters st o (ofilters x) a), E; reflexivity).
+    destruct pass; [|exact H]. rewrite objs_fold_clog. exact H.
+  Qed.
+  Lemma objs_fold_dispatch o x (evs : list (nat * Z)) st :
+    objs (fold_left (fun s e => do_dispatch s o x (fst e) (snd e)) evs st) = objs st.
+  Proof. revert st; induction evs as [|e t IH]; intros st; simpl; [reflexivity|]. rewrite IH. apply objs_do_dispatch. Qed.
+
+  (* case analysis on what a step evaluates, shared by the proofs below *)
+  Ltac step_cases H :=
+    repeat match type of H with
+         | context [match getobj ?s ?i with _ => _ end] => destruct (getobj s i) eqn:?; try discriminate
+         | context [match nth_error (objs ?l) ?i with _ => _ end] => destruct (nth_error (objs l) i) as [[?|]|] eqn:?; try discriminate
+         | context [match nth_error (cregs ?l) ?i with _ => _ end] => destruct (nth_error (cregs l) i) eqn:?; try discriminate
+         | context [match opending ?x with _ => _ end] => destruct (opending x) eqn:?
+         | context [if has_node ?n ?l then _ else _] => destruct (has_node n l) eqn:?; try discriminate
+         | context [if Nat.eqb ?a ?b && ?c then _ else _] => destruct (Nat.eqb a b && c) eqn:?
+         | context [if Nat.eqb ?a ?b then _ else _] => destruct (Nat.eqb_spec a b); try subst
+         | context [copy_at ?a ?b ?c ?d ?n ?x] => destruct (copy_at a b c d n x) eqn:?
+         | context [clone_lst ?n ?l] => destruct (clone_lst n l) eqn:?
+         end.
 
   (* independence: a command never changes an object it does not target — in particular later
      changes to a copy never affect its source and vice versa *)
   Theorem frame st c st' o' :
     step st c = Some st' -> ~ In o' (targets c) -> getobj st' o' = getobj st o'.
   Proof.
-    intros H Hn. destruct c; simpl in H, Hn.
-    all: repeat match type of H with
-         | context [match getobj ?s ?i with _ => _ end] => destruct (getobj s i) eqn:?; try discriminate
-         | context [match nth_error ?l ?i with _ => _ end] => destruct (nth_error l i) as [[?|]|] eqn:?; try discriminate
-         | context [match opending ?x with _ => _ end] => destruct (opending x) eqn:?
-         | context [if Nat.eqb ?a ?b then _ else _] => destruct (Nat.eqb_spec a b); try subst
-         end.
+    intros H Hn. unfold getobj. replace (nth_error (objs st') o') with (nth_error (objs st) o'); [reflexivity|].
+    destruct c; simpl in H, Hn; step_cases H.
     all: try (inversion H; subst; clear H).
-    all: rewrite ?getobj_clog, ?getobj_fold_dispatch, ?getobj_do_dispatch.
-    all: repeat rewrite getobj_putobj_other by (intro X; apply Hn; subst; simpl; auto).
+    all: cbn [objs putobj setnext clog]; rewrite ?objs_fold_dispatch, ?objs_do_dispatch; cbn [objs putobj setnext clog].
+    all: rewrite ?nth_error_oset.
+    all: repeat match goal with |- context [Nat.eqb ?a ?b] => destruct (Nat.eqb_spec a b); [exfalso; apply Hn; subst; simpl; auto|] end.
     all: try reflexivity.
   Qed.
 
-  (* a copy has the listeners and filters of its source, in the same order, and no pending events *)
+  (* cloning keeps the callbacks, in order, and gives out exactly the identities nxt .. result - 1 *)
+  Lemma renum_spec nxt l :
+    map snd (fst (renum nxt l)) = map snd l /\ nxt <= snd (renum nxt l) /\
+    (forall m, In m (map fst (fst (renum nxt l))) -> nxt <= m < snd (renum nxt l)).
+  Proof.
+    revert nxt; induction l as [|nc t IH]; intros nxt; simpl; [split; [reflexivity|split; [lia|intros m []]]|].
+    destruct (renum (S nxt) t) as [t' n'] eqn:E. specialize (IH (S nxt)). rewrite E in IH. simpl in *.
+    destruct IH as (A & B & C). split; [f_equal; exact A|split; [lia|]].
+    intros m [<-|Hm]; [lia|]. specialize (C m Hm). lia.
+  Qed.
+
+  Lemma clone_spec nxt l :
+    cbs_of (fst (clone_lst nxt l)) = cbs_of l /\ nxt <= snd (clone_lst nxt l) /\
+    (forall m, In m (lnodes (fst (clone_lst nxt l))) -> nxt <= m < snd (clone_lst nxt l)).
+  Proof.
+    revert nxt; induction l as [|[k ns] t IH]; intros nxt; simpl; [split; [reflexivity|split; [lia|intros m []]]|].
+    destruct (renum_spec nxt ns) as (A1 & B1 & C1).
+    destruct (renum nxt ns) as [ns' n1] eqn:E1. simpl in *.
+    specialize (IH n1). destruct (clone_lst n1 t) as [t' n2] eqn:E2. simpl in *.
+    destruct IH as (A & B & C). split; [|split].
+    - unfold cbs_of in *. simpl. rewrite A1, A. reflexivity.
+    - lia.
+    - intros m Hm. unfold lnodes in Hm. simpl in Hm. apply in_app_or in Hm. destruct Hm as [Hm|Hm].
+      + specialize (C1 m Hm). lia.
+      + specialize (C m Hm). lia.
+  Qed.
+
+  (* a copy has the listeners and filters of its source, in the same order, and no pending events; its nodes
+     are new ones (identities from the counter at the time of the copy on) *)
   Theorem copy_same_content st s d x st' :
     getobj st s = Some x -> step st (CCopyCtor s d) = Some st' ->
-    exists y, getobj st' d = Some y /\ olst y = olst x /\ ofilters y = ofilters x /\ opending y = [] /\
-              getobj st' s = getobj st s.
+    exists y, getobj st' d = Some y /\ cbs_of (olst y) = cbs_of (olst x) /\ ofilters y = ofilters x /\ opending y = [] /\
+              getobj st' s = getobj st s /\
+              (forall m, In m (lnodes (olst y)) -> cnext st <= m < cnext st') /\ cnext st <= cnext st'.
   Proof.
     intros Hx H. simpl in H. rewrite Hx in H.
-    destruct (nth_error (objs st) d) as [[?|]|] eqn:Ed; try discriminate. inversion H; subst. clear H.
-    assert (Hne : s <> d). { intro E; subst. unfold getobj in Hx. rewrite Ed in Hx. discriminate. }
-    exists (copy_of ci cs j1 j2 x). repeat split; auto.
-    - unfold getobj, putobj; simpl. rewrite nth_error_oset, Nat.eqb_refl.
+    destruct (nth_error (objs st) d) as [[?|]|] eqn:Ed; try discriminate.
+    unfold copy_at in H. destruct (clone_spec (cnext st) (olst x)) as (A & B & C).
+    destruct (clone_lst (cnext st) (olst x)) as [l n] eqn:E. simpl in *. inversion H; subst. clear H.
+    assert (Hne : s <> d). { intro E'; subst. unfold getobj in Hx. rewrite Ed in Hx. discriminate. }
+    eexists. split; [|split; [|split; [|split; [|split; [|split]]]]].
+    - rewrite getobj_setnext. unfold getobj, putobj; simpl. rewrite nth_error_oset, Nat.eqb_refl.
       assert (d < length (objs st)) by (apply nth_error_Some; rewrite Ed; discriminate).
       destruct (Nat.ltb_spec d (length (objs st))); [reflexivity|lia].
-    - apply getobj_putobj_other. exact Hne.
+    - exact A.
+    - reflexivity.
+    - reflexivity.
+    - rewrite getobj_setnext. apply getobj_putobj_other. exact Hne.
+    - exact C.
+    - exact B.
   Qed.
 
   (* a move transfers the listeners and filters; the source stays a valid queue without listeners *)
@@ -136,42 +205,261 @@ Section Facts.
   Qed.
 
   Theorem self_swap_and_self_assign_change_nothing st a x :
+    asafe = true ->
     getobj st a = Some x ->
-    (exists st', step st (CSwap a a) = Some st' /\ getobj st' a = Some x /\ ctrace st' = ctrace st) /\
-    (exists st', step st (CCopyAssign a a) = Some st' /\ getobj st' a = Some x /\ ctrace st' = ctrace st) /\
+    (exists st', step st (CSwap a a) = Some st' /\ getobj st' a = Some x /\ ctrace st' = ctrace st /\
+                 cnext st' = cnext st /\ cregs st' = cregs st) /\
+    step st (CCopyAssign a a) = Some st /\
     step st (CMoveAssign a a) = Some st.
   Proof.
-    intros Ha. destruct x as [l f p e n]. split; [|split].
-    - simpl. rewrite Ha, Nat.eqb_refl. simpl. eexists. split; [reflexivity|]. split; [|reflexivity].
+    intros Hs Ha. destruct x as [l f p e n]. split; [|split].
+    - simpl. rewrite Ha, Nat.eqb_refl. simpl. eexists. split; [reflexivity|]. split; [|repeat split].
       apply (getobj_putobj_same _ a _ (mkObj l f p e n)).
       apply (getobj_putobj_same _ a _ _ Ha).
-    - simpl. rewrite Ha. simpl. eexists. split; [reflexivity|]. split; [|reflexivity].
-      apply (getobj_putobj_same _ a _ _ Ha).
+    - simpl. rewrite Ha, Nat.eqb_refl, Hs. reflexivity.
     - simpl. rewrite Nat.eqb_refl, Ha. reflexivity.
+  Qed.
+
+  (* ---- node identities: every node and every handle register is below the counter ---- *)
+  Definition Bounded (st : cstate) : Prop :=
+    (forall o x, getobj st o = Some x -> forall m, In m (lnodes (olst x)) -> m < cnext st) /\
+    (forall m, In m (cregs st) -> m < cnext st).
+
+  Lemma getobj_putobj_inv st o x o' x' :
+    getobj (putobj st o x) o' = Some x' -> (o' = o /\ x = Some x') \/ (o' <> o /\ getobj st o' = Some x').
+  Proof.
+    unfold getobj, putobj; simpl. rewrite nth_error_oset. destruct (Nat.eqb_spec o' o) as [->|Hne].
+    - destruct (o <? length (objs st)); [|discriminate]. destruct x; [|discriminate]. intros H; left; split; [reflexivity|exact H].
+    - intros H; right; split; assumption.
+  Qed.
+
+  Lemma klist_nodes x k m : In m (map fst (klist x k)) -> In m (lnodes (olst x)).
+  Proof.
+    unfold klist, lnodes. induction (olst x) as [|[k' v] t IH]; simpl; [intros []|].
+    destruct (Nat.eqb k k'); intros H; apply in_or_app; [left; exact H|right; apply IH; exact H].
+  Qed.
+
+  Lemma aput_nodes k v l m : In m (lnodes (aput k v l)) -> In m (map fst v) \/ In m (lnodes l).
+  Proof.
+    unfold lnodes. induction l as [|[k' v'] t IH]; simpl.
+    - rewrite app_nil_r. intros H; left; exact H.
+    - destruct (Nat.eqb k k'); simpl; intros H; apply in_app_or in H; destruct H as [H|H].
+      + left; exact H.
+      + right; apply in_or_app; right; exact H.
+      + right; apply in_or_app; left; exact H.
+      + destruct (IH H) as [H1|H1]; [left; exact H1|right; apply in_or_app; right; exact H1].
+  Qed.
+
+  Lemma drop_nodes n l m : In m (map fst (drop_node n l)) -> In m (map fst l).
+  Proof.
+    unfold drop_node. induction l as [|nc t IH]; simpl; [intros []|].
+    destruct (negb (fst nc =? n)); simpl; intros H; [destruct H as [H|H]; [left; exact H|right; apply IH; exact H]|right; apply IH; exact H].
+  Qed.
+
+  Lemma cnext_fold_clog {A} (f : A -> cev) (l : list A) st :
+    cnext (fold_left (fun s c => clog s (f c)) l st) = cnext st /\ cregs (fold_left (fun s c => clog s (f c)) l st) = cregs st.
+  Proof. revert st; induction l as [|x t IH]; intros st; simpl; [split; reflexivity|]. destruct (IH (clog st (f x))) as [E1 E2]. rewrite E1, E2. split; reflexivity. Qed.
+  Lemma cnext_run_filters st o fs a :
+    cnext (fst (run_filters st o fs a)) = cnext st /\ cregs (fst (run_filters st o fs a)) = cregs st.
+  Proof.
+    revert st; induction fs as [|[c v] t IH]; intros st; simpl; [split; reflexivity|].
+    destruct v; [destruct (IH (clog st (CFilter o c a))) as [A B]; rewrite A, B|]; split; reflexivity.
+  Qed.
+  Lemma cnext_do_dispatch st o x k a :
+    cnext (do_dispatch st o x k a) = cnext st /\ cregs (do_dispatch st o x k a) = cregs st.
+  Proof.
+    unfold do_dispatch. destruct (run_filters st o (ofilters x) a) as [st1 pass] eqn:E.
+    assert (H : cnext st1 = cnext st /\ cregs st1 = cregs st) by (generalize (cnext_run_filters st o (ofilters x) a); rewrite E; auto).
+    destruct pass; [|exact H]. destruct (cnext_fold_clog (fun c => CCall o c k a) (map snd (klist x k)) st1) as [A B].
+    rewrite A, B. exact H.
+  Qed.
+  Lemma cnext_fold_dispatch o x (evs : list (nat * Z)) st :
+    cnext (fold_left (fun s e => do_dispatch s o x (fst e) (snd e)) evs st) = cnext st /\
+    cregs (fold_left (fun s e => do_dispatch s o x (fst e) (snd e)) evs st) = cregs st.
+  Proof.
+    revert st; induction evs as [|e t IH]; intros st; simpl; [split; reflexivity|].
+    destruct (IH (do_dispatch st o x (fst e) (snd e))) as [A B]. rewrite A, B. apply cnext_do_dispatch.
+  Qed.
+
+  Lemma bounded_mono st st' :
+    Bounded st -> cnext st <= cnext st' -> cregs st' = cregs st ->
+    (forall o x, getobj st' o = Some x -> (exists x0, getobj st o = Some x0 /\ (forall m, In m (lnodes (olst x)) -> In m (lnodes (olst x0))))
+                                          \/ (forall m, In m (lnodes (olst x)) -> m < cnext st')) ->
+    Bounded st'.
+  Proof.
+    intros [B1 B2] Hle Hr Hall. split.
+    - intros o x Hx m Hm. destruct (Hall o x Hx) as [(x0 & Hx0 & Hsub)|Hf]; [|exact (Hf m Hm)].
+      specialize (B1 o x0 Hx0 m (Hsub m Hm)). lia.
+    - intros m Hm. rewrite Hr in Hm. specialize (B2 m Hm). lia.
+  Qed.
+
+  Lemma bounded_putobj st o x :
+    Bounded st -> (forall y, x = Some y -> forall m, In m (lnodes (olst y)) -> m < cnext st) -> Bounded (putobj st o x).
+  Proof.
+    intros [B1 B2] Hx. split; [|exact B2].
+    intros o' x' Hx' m Hm. apply getobj_putobj_inv in Hx'. destruct Hx' as [[-> Hx']|[_ Hx']].
+    - exact (Hx x' Hx' m Hm).
+    - exact (B1 _ _ Hx' m Hm).
+  Qed.
+  Lemma bounded_same st st' :
+    Bounded st -> objs st' = objs st -> cnext st' = cnext st -> cregs st' = cregs st -> Bounded st'.
+  Proof. intros [B1 B2] Ho Hn Hr. unfold Bounded, getobj. rewrite Ho, Hn, Hr. split; assumption. Qed.
+  Lemma bounded_setnext st n : Bounded st -> cnext st <= n -> Bounded (setnext st n).
+  Proof.
+    intros [B1 B2] Hle. split.
+    - intros o x Hx m Hm. specialize (B1 o x Hx m Hm). simpl. lia.
+    - intros m Hm. specialize (B2 m Hm). simpl. lia.
+  Qed.
+
+  Ltac useB1 := cbn [olst] in *; match goal with B : forall o x, getobj _ o = Some x -> _, H : getobj _ _ = Some ?x, Hm : In _ (lnodes (olst ?x)) |- _ => exact (B _ _ H _ Hm) end.
+  Ltac useB1lia := cbn [olst] in *; match goal with B : forall o x, getobj _ o = Some x -> _, H : getobj _ _ = Some ?x, Hm : In _ (lnodes (olst ?x)) |- _ => specialize (B _ _ H _ Hm); lia end.
+  Theorem bounded_step st c st' : Bounded st -> step st c = Some st' -> Bounded st'.
+  Proof.
+    intros HB H. pose proof HB as [B1 B2].
+    destruct c; simpl in H; step_cases H; try (inversion H; subst; clear H); try exact HB.
+    - (* append *)
+      split.
+      + intros o' x' Hx' m Hm. cbn [cnext].
+        change (getobj (putobj st o (Some (with_lst c0 (aput k (klist c0 k ++ [(cnext st, c)]) (olst c0))))) o' = Some x') in Hx'.
+        apply getobj_putobj_inv in Hx'. destruct Hx' as [[-> Hx']|[_ Hx']].
+        * inversion Hx'; subst. simpl in Hm. apply aput_nodes in Hm. destruct Hm as [Hm|Hm].
+          -- rewrite map_app in Hm. apply in_app_or in Hm. destruct Hm as [Hm|Hm]; [|simpl in Hm; destruct Hm as [<-|[]]; lia].
+             apply klist_nodes in Hm. useB1lia.
+          -- useB1lia.
+        * specialize (B1 _ _ Hx' m Hm). lia.
+      + intros m Hm. cbn [cnext cregs] in *. apply in_app_or in Hm. destruct Hm as [Hm|[<-|[]]]; [specialize (B2 m Hm)|]; lia.
+    - (* remove *)
+      apply (bounded_same (putobj st o (Some (with_lst c (aput k (drop_node n (klist c k)) (olst c)))))); try reflexivity.
+      apply bounded_putobj; [exact HB|]. intros y Hy m Hm. inversion Hy; subst. simpl in Hm. apply aput_nodes in Hm.
+      destruct Hm as [Hm|Hm]; [apply drop_nodes in Hm; apply klist_nodes in Hm|]; useB1.
+    - apply bounded_putobj; [exact HB|]. intros y Hy m Hm. inversion Hy; subst. useB1.
+    - apply bounded_putobj; [exact HB|]. intros y Hy m Hm. inversion Hy; subst. useB1.
+    - (* process *)
+      match goal with |- Bounded (clog ?X _) => apply (bounded_same (putobj st o (Some (mkObj (olst c) (ofilters c) [] (oecnt c) (oncnt c)))));
+         [|change (objs X = objs (putobj st o (Some (mkObj (olst c) (ofilters c) [] (oecnt c) (oncnt c)))))
+          |change (cnext X = cnext st)|change (cregs X = cregs st)] end.
+      + apply bounded_putobj; [exact HB|]. intros y Hy m Hm. inversion Hy; subst. useB1.
+      + rewrite objs_fold_dispatch, objs_do_dispatch. reflexivity.
+      + destruct (cnext_fold_dispatch o c l (do_dispatch (putobj st o (Some (mkObj (olst c) (ofilters c) [] (oecnt c) (oncnt c)))) o c (fst p) (snd p))) as [E1 _].
+        rewrite E1. rewrite (proj1 (cnext_do_dispatch _ _ _ _ _)). reflexivity.
+      + destruct (cnext_fold_dispatch o c l (do_dispatch (putobj st o (Some (mkObj (olst c) (ofilters c) [] (oecnt c) (oncnt c)))) o c (fst p) (snd p))) as [_ E2].
+        rewrite E2. rewrite (proj2 (cnext_do_dispatch _ _ _ _ _)). reflexivity.
+    - apply (bounded_same st); [exact HB|apply objs_do_dispatch|apply (proj1 (cnext_do_dispatch _ _ _ _ _))|apply (proj2 (cnext_do_dispatch _ _ _ _ _))].
+    - apply bounded_putobj; [exact HB|]. intros y Hy m Hm. inversion Hy; subst. useB1.
+    - apply bounded_putobj; [exact HB|]. intros y Hy m Hm. inversion Hy; subst. useB1.
+    - apply bounded_putobj; [exact HB|]. intros y Hy m Hm. inversion Hy; subst. useB1.
+    - apply bounded_putobj; [exact HB|]. intros y Hy m Hm. inversion Hy; subst. useB1.
+    - apply bounded_putobj; [exact HB|]. intros y Hy m Hm. inversion Hy; subst. destruct Hm.
+    - (* copy constructor *)
+      unfold copy_at in *. destruct (clone_spec (cnext st) (olst c)) as (A0 & B0 & C0).
+      destruct (clone_lst (cnext st) (olst c)) as [l' n'] eqn:E. simpl in *.
+      match goal with H : (_, _) = (_, _) |- _ => inversion H; subst; clear H end.
+      change (Bounded (putobj (setnext st n) d (Some (with_lst (copy_of ci cs j1 j2 c) l')))).
+      apply bounded_putobj; [apply bounded_setnext; assumption|].
+      intros y Hy m Hm. inversion Hy; subst. simpl in *. apply C0. exact Hm.
+    - (* move constructor *)
+      apply bounded_putobj; [apply bounded_putobj; [exact HB|]|]; intros y Hy m Hm; inversion Hy; subst; simpl in Hm; [useB1|destruct Hm].
+    - (* copy assignment *)
+      destruct (clone_spec (cnext st) (olst c)) as (A0 & B0 & C0).
+      match goal with H : clone_lst _ _ = _ |- _ => rewrite H in * end. simpl in *.
+      match goal with |- Bounded (setnext (putobj st d ?X) n) => change (Bounded (putobj (setnext st n) d X)) end.
+      apply bounded_putobj; [apply bounded_setnext; assumption|].
+      intros y Hy m Hm. inversion Hy; subst. simpl in *. apply C0. exact Hm.
+    - (* move assignment *)
+      apply bounded_putobj; [apply bounded_putobj; [exact HB|]|]; intros y Hy m Hm; inversion Hy; subst; simpl in Hm; [useB1|destruct Hm].
+    - (* self swap *)
+      apply bounded_putobj; [apply bounded_putobj; [exact HB|]|]; intros y Hy m Hm; inversion Hy; subst; simpl in Hm; useB1.
+    - (* swap *)
+      apply bounded_putobj; [apply bounded_putobj; [exact HB|]|]; intros y Hy m Hm; inversion Hy; subst; simpl in Hm;
+        [useB1|useB1].
+    - (* destroy *)
+      apply bounded_putobj; [exact HB|]. intros y Hy. discriminate.
   Qed.
 End Facts.
 
+
+
 (* nothing depends on what the storage held: with constructors that initialise the counters the
    whole run is the same function of the program for every previous content *)
-Theorem junk_independent (cs ms : bool) (a b a' b' : Z) n prog :
-  c_run_case true cs true ms a b n prog = c_run_case true cs true ms a' b' n prog.
+Theorem junk_independent (cs ms asafe : bool) (a b a' b' : Z) n prog :
+  c_run_case true cs true ms a b asafe n prog = c_run_case true cs true ms a' b' asafe n prog.
 Proof.
   unfold c_run_case. generalize (cinit n). induction prog as [|c r IH]; intros st; simpl; [reflexivity|].
-  assert (E : cstep true cs true ms a b st c = cstep true cs true ms a' b' st c) by (destruct c; reflexivity).
-  rewrite E. destruct (cstep true cs true ms a' b' st c); [apply IH|reflexivity].
+  assert (E : cstep true cs true ms a b asafe st c = cstep true cs true ms a' b' asafe st c) by (destruct c; reflexivity).
+  rewrite E. destruct (cstep true cs true ms a' b' asafe st c); [apply IH|reflexivity].
+Qed.
+
+(* every reachable state has its node identities and handle registers below the counter *)
+Theorem bounded_reachable ci cs mi ms j1 j2 asafe n prog st :
+  crun ci cs mi ms j1 j2 asafe (cinit n) prog = Some st -> Bounded st.
+Proof.
+  assert (B0 : Bounded (cinit n)).
+  { split; [|intros m []]. intros o x Hx m Hm. unfold getobj, cinit in Hx. simpl in Hx.
+    destruct o as [|o]; simpl in Hx.
+    - inversion Hx; subst. destruct Hm.
+    - destruct (nth_error (repeat None (pred n)) o) as [[y|]|] eqn:E; try discriminate.
+      apply nth_error_In in E. apply repeat_spec in E. discriminate. }
+  revert B0. generalize (cinit n). induction prog as [|c r IH]; intros st0 B0 H; simpl in H.
+  - inversion H; subst. exact B0.
+  - destruct (cstep ci cs mi ms j1 j2 asafe st0 c) as [st1|] eqn:E; [|discriminate].
+    apply (IH st1); [|exact H]. exact (bounded_step ci cs mi ms j1 j2 asafe st0 c st1 B0 E).
+Qed.
+
+(* INDEPENDENCE AT THE LEVEL OF HANDLES: in a state whose identities are below the counter (every reachable one), the
+   object a copy constructor builds owns no node that any object had before, and no handle register refers to one of
+   its nodes: ownsHandle on the copy answers false for every handle taken so far, whatever the key *)
+Theorem copy_owns_no_earlier_handle ci cs mi ms j1 j2 asafe st s d st' :
+  Bounded st -> cstep ci cs mi ms j1 j2 asafe st (CCopyCtor s d) = Some st' ->
+  exists y, getobj st' d = Some y /\
+    (forall o x m, getobj st o = Some x -> In m (lnodes (olst x)) -> ~ In m (lnodes (olst y))) /\
+    (forall k h n, nth_error (cregs st') h = Some n -> has_node n (klist y k) = false).
+Proof.
+  intros [B1 B2] H. destruct (getobj st s) as [x|] eqn:Hx; [|simpl in H; rewrite Hx in H; discriminate].
+  destruct (copy_same_content ci cs mi ms j1 j2 asafe st s d x st' Hx H) as (y & Hy & _ & _ & _ & _ & Hfresh & _).
+  exists y. split; [exact Hy|]. split.
+  - intros o x0 m Hx0 Hm Hin. specialize (B1 o x0 Hx0 m Hm). specialize (Hfresh m Hin). lia.
+  - intros k h n Hn.
+    assert (Hr : cregs st' = cregs st).
+    { simpl in H. rewrite Hx in H. destruct (nth_error (objs st) d) as [[?|]|]; try discriminate.
+      destruct (copy_at ci cs j1 j2 (cnext st) x). inversion H; subst. reflexivity. }
+    rewrite Hr in Hn. apply nth_error_In in Hn. specialize (B2 n Hn).
+    destruct (has_node n (klist y k)) eqn:E; [|reflexivity]. exfalso.
+    unfold has_node in E. apply existsb_exists in E. destruct E as ([n' c'] & Hin & Heq). simpl in Heq.
+    apply Nat.eqb_eq in Heq. subst n'.
+    assert (In n (lnodes (olst y))). { apply (klist_nodes y k). apply (in_map fst) in Hin. exact Hin. }
+    specialize (Hfresh n H0). lia.
+Qed.
+
+(* a move constructor hands the nodes over: the target answers ownsHandle exactly as the source did *)
+Theorem move_hands_over_the_handles ci cs mi ms j1 j2 asafe st s d x st' :
+  getobj st s = Some x -> cstep ci cs mi ms j1 j2 asafe st (CMoveCtor s d) = Some st' ->
+  exists y z, getobj st' d = Some y /\ getobj st' s = Some z /\ cregs st' = cregs st /\
+    (forall k n, has_node n (klist y k) = has_node n (klist x k)) /\ (forall k n, has_node n (klist z k) = false).
+Proof.
+  intros Hx H. destruct (move_transfers ci cs mi ms j1 j2 asafe st s d x st' Hx H) as (y & z & Hy & Ly & _ & _ & Hz & Lz & _ & _).
+  exists y, z. split; [exact Hy|]. split; [exact Hz|]. split.
+  - simpl in H. rewrite Hx in H. destruct (nth_error (objs st) d) as [[?|]|]; try discriminate. inversion H; subst. reflexivity.
+  - split; intros k n; unfold klist; [rewrite Ly; reflexivity|rewrite Lz; reflexivity].
 Qed.
 
 (* a queue obtained by copy or move construction behaves like a fresh one WHATEVER is in flight
    on its source (any counter values there): it reports empty until something is enqueued into
    it, and then waiting/notification sees the event *)
-Theorem constructed_queue_is_fresh (a b : Z) (x : cobj) :
-  let y := copy_of true false a b x in
+Theorem constructed_queue_is_fresh (a b : Z) (nxt : nat) (x : cobj) :
+  let y := fst (copy_at true false a b nxt x) in
   let z := moved_into true false a b x in
   GenQ.empty_queue (is_nil (opending y)) (oecnt y) = true /\
   GenQ.empty_queue (is_nil (opending z)) (oecnt z) = true /\
   (forall e, GenQ.can_process (is_nil (opending y ++ [e])) (oecnt y) (oncnt y) = true) /\
   (forall e, GenQ.can_process (is_nil (opending z ++ [e])) (oecnt z) (oncnt z) = true).
-Proof. simpl. repeat split; reflexivity. Qed.
+Proof. unfold copy_at. destruct (clone_lst nxt (olst x)). simpl. repeat split; reflexivity. Qed.
+
+(* a copy assignment written as copy-and-swap without a self test makes every handle stale when an object is assigned
+   to itself (the shape tie A reports as `false`; seeded change C10c) *)
+Theorem unsafe_self_assignment_refuted :
+  c_run_case true false true false 0 0 false 2 [CAppend 0 1 5; COwns 0 1 0; CCopyAssign 0 0; COwns 0 1 0] = Some [CRet true; CRet false] /\
+  c_run_case true false true false 0 0 true 2 [CAppend 0 1 5; COwns 0 1 0; CCopyAssign 0 0; COwns 0 1 0] = Some [CRet true; CRet true].
+Proof. split; vm_compute; reflexivity. Qed.
 
 (* regression witness for the repaired defect (0cf92d0): constructors that leave the counters
    to the storage's previous content make a never-used queue report non-empty *)
